@@ -325,6 +325,24 @@ def check_history(env, rec, rows):
     except Exception as e:
         rec.violation("C20:tag-manager-raises:" + type(e).__name__, error=repr(e)[:200], **where)
         return
+    # the same table handed over with row labels 1..n (a frame cut out of a longer one): labels are not positions, and the
+    # listing is the same
+    if any("Delay/" in h for h in hed):
+        try:
+            df2 = df.copy()
+            df2.index = range(1, len(df2) + 1)
+            em2 = EventManager(TabularInput(df2), env.schema, extra_defs=env.dd)
+            a = ([float(x) for x in real_em.onsets] if env.ns else onsets, [str(x) for x in (real_em if env.ns else em).base],
+                 [str(x) for x in (real_em if env.ns else em).contexts], [str(x) for x in (real_em if env.ns else em).hed_strings])
+            b = ([float(x) for x in em2.onsets], [str(x) for x in em2.base], [str(x) for x in em2.contexts],
+                 [str(x) for x in em2.hed_strings])
+            rec.n("transitions")
+            if a != b:
+                rec.violation("C20:row-labels-change-the-listing", labels="1..n", default_labels=repr(a)[:300], got=repr(b)[:300], **where)
+                return
+        except Exception as e:
+            rec.violation("C20:row-labels:raises:" + type(e).__name__, labels="1..n", error=repr(e)[:200], **where)
+            return
     rec.outcome("ok:" + str(max(len(c) for c in ctx) if ctx else 0))
 
 
